@@ -129,6 +129,9 @@ func (n *xnode) toTree(enumTag int) (*tree.Item, error) {
 	}
 	if enumTag == 0 {
 		enumTag = tag
+		if alias, ok := enumAlias()[tag]; ok {
+			enumTag = alias
+		}
 	}
 	it := &tree.Item{Tag: tag}
 	val := n.Attrs["value"]
@@ -243,6 +246,49 @@ func (n *xnode) toTree(enumTag int) (*tree.Item, error) {
 	return it, nil
 }
 
+var enumAliasMap map[int]int
+
+// enumAlias maps a field tag to the tag of the enumeration / bit mask TYPE stored in it when they differ
+// (e.g. MaskGeneratorHashingAlgorithm holds a HashingAlgorithm), read from the reflected schema.
+func enumAlias() map[int]int {
+	if enumAliasMap != nil {
+		return enumAliasMap
+	}
+	enumAliasMap = map[int]int{}
+	for _, d := range getSchema().Structs {
+		for _, f := range d.Fields {
+			k := f.Kind
+			for k.Elem != nil {
+				k = *k.Elem
+			}
+			if (k.K == "enum" || k.K == "mask") && k.Tag != f.Tag && f.Tag != 0 {
+				enumAliasMap[f.Tag] = k.Tag
+			}
+		}
+	}
+	return enumAliasMap
+}
+
+// supportedOps reports whether every batch item of the message names an operation with registered payloads.
+func supportedOps(n *xnode) bool {
+	ok := true
+	reg := map[string]bool{}
+	for _, op := range getSchema().Ops {
+		reg[ttlv.EnumName(kmip.TagOperation, op.Op)] = true
+	}
+	var walk func(x *xnode)
+	walk = func(x *xnode) {
+		if x.Name == "Operation" && !reg[x.Attrs["value"]] {
+			ok = false
+		}
+		for _, c := range x.Children {
+			walk(c)
+		}
+	}
+	walk(n)
+	return ok
+}
+
 var (
 	vecNowRe = regexp.MustCompile(`"\$NOW((\-|\+)\d+)?"`)
 	vecVarRe = regexp.MustCompile(`"\$[A-Za-z0-9_]+"`)
@@ -275,7 +321,7 @@ func vectorCase(ctx *Ctx, file string, idx int, n *xnode, origin string) {
 		ctx.Res.Violate(report.Violation{Property: "C02", Oracle: "no-panic", Key: "xml:decode-panic:" + panicKey(p), Detail: "decoder panicked on a conformance vector: " + p, Line: line})
 	case derr != nil:
 		outcome = "err"
-		if origin == "original" {
+		if origin == "original" && supportedOps(n) {
 			ctx.Res.Violate(report.Violation{Property: "C04", Oracle: "vector-accepted", Key: key + ":rejected", Detail: "a conformance vector is rejected: " + derr.Error(), Line: line})
 		}
 	default:
@@ -309,7 +355,8 @@ func vectorCase(ctx *Ctx, file string, idx int, n *xnode, origin string) {
 	ctx.Res.Count("vector." + origin + "." + outcome)
 }
 
-// vary produces value / optional-element variations of a vector message.
+// vary produces value variations of a vector message. Zero values ("", 0, false) are not used: the
+// library's data model identifies the zero value of an optional element with its absence.
 func vary(r *rng.R, n *xnode) *xnode {
 	var clone func(x *xnode) *xnode
 	clone = func(x *xnode) *xnode {
@@ -332,25 +379,30 @@ func vary(r *rng.R, n *xnode) *xnode {
 		}
 	}
 	walk(c)
+	// elements that determine the shape or the version gating of the message are left alone
+	structural := map[string]bool{"ProtocolVersionMajor": true, "ProtocolVersionMinor": true, "AttributeName": true, "BatchCount": true}
 	for k := 0; k < 2; k++ {
 		x := rng.Pick(r, all)
+		if structural[x.Name] {
+			continue
+		}
 		switch x.Attrs["type"] {
 		case "TextString":
-			x.Attrs["value"] = rng.Pick(r, []string{"", "a", "x y", "<&>\"'", "é€漢😀", "0x10", "true"})
+			x.Attrs["value"] = rng.Pick(r, []string{"a", "x y", "<&>\"'", "é€漢😀", "0x10", "true"})
 		case "Integer":
 			if _, err := parseNum(x.Attrs["value"], 32); err == nil {
-				x.Attrs["value"] = rng.Pick(r, []string{"0", "-1", "2147483647", "-2147483648", "7"})
+				x.Attrs["value"] = rng.Pick(r, []string{"-1", "2147483647", "-2147483648", "7"})
 			}
 		case "LongInteger":
-			x.Attrs["value"] = rng.Pick(r, []string{"0", "-1", "9223372036854775807", "4503599627370496"})
+			x.Attrs["value"] = rng.Pick(r, []string{"-1", "9223372036854775807", "4503599627370496"})
 		case "ByteString":
-			x.Attrs["value"] = rng.Pick(r, []string{"", "00", "FF00", "0123456789ABCDEF01"})
+			x.Attrs["value"] = rng.Pick(r, []string{"00", "FF00", "0123456789ABCDEF01"})
 		case "Boolean":
-			x.Attrs["value"] = rng.Pick(r, []string{"true", "false"})
+			x.Attrs["value"] = "true"
 		case "DateTime":
 			x.Attrs["value"] = rng.Pick(r, []string{"1970-01-01T00:00:00Z", "2038-01-19T03:14:08+00:00", "0001-01-01T00:00:00Z", "9999-12-31T23:59:59Z", "2001-02-03T04:05:06-07:00"})
 		case "Interval":
-			x.Attrs["value"] = rng.Pick(r, []string{"0", "1", "4294967295"})
+			x.Attrs["value"] = rng.Pick(r, []string{"1", "4294967295"})
 		}
 	}
 	return c
